@@ -3,6 +3,7 @@
 import concurrent.futures as cf
 import json
 import os
+import re
 import sys
 import time
 
@@ -38,6 +39,7 @@ def check_property(prop, tier="quick", seed=0, jobs=16):
     dependent_notes = []
     vac = dict(reach_probes_failed_as_expected=0, covers_satisfied=0, covers_total=0)
     bounded_checks = bounded_passed = 0
+    known_obl = 0   # failed obligations that ARE the listed known findings: reported separately, not as undischarged proof obligations
     checker_cmds = []
 
     # ---------------- Verus: lemma files and extracted units
@@ -124,12 +126,26 @@ def check_property(prop, tier="quick", seed=0, jobs=16):
             if r["rlimited"] and not any(V.ERR_KINDS_VIOLATION.search(m["msg"]) for m in msgs):
                 undecided.append(f"verus {uname}::{fname}: resource limit")
                 continue
+            if role == "dep":
+                # clause-level ownership: a failed postcondition clause marked `//#own Cxx ...` in the template is an
+                # obligation of those properties even where the function as a whole is only a dependency
+                try:
+                    glines = open(r["path"]).read().splitlines()
+                except OSError:
+                    glines = []
+                marked = [m for m in msgs if "postcondition" in m["msg"] and 0 < m["line"] <= len(glines)
+                          and re.search(r"//#own\b[^\n]*\b" + prop + r"\b", glines[m["line"] - 1])]
+                if marked:
+                    role = "own"
+                    desc = "postcondition clause owned by " + prop + " not satisfied: " + glines[marked[0]["line"] - 1].split("//#own")[0].strip()[:300]
             if role == "dep" or role == "support" and kind == "unit" and not _support_is_own(u, prop):
                 dependent_notes.append(f"{uname}::{fname} failed ({desc}); lift of {prop} through this contract is not established on this tree (owner: {oblig.get(fname, {}).get('own', [])})")
                 continue
             item = dict(engine="verus", unit=uname, obligation=fname, desc=desc, stderr=r["stderr"],
                         kani_twin=(oblig.get(fname, {}) or {}).get("kani_twin"))
             kf = _known_match(known, prop, "verus", uname, fname + ": " + desc)
+            if kf:
+                known_obl += 1
             (known_hits if kf else violations).append(dict(item, known=kf))
 
     # ---------------- Kani
@@ -185,6 +201,8 @@ def check_property(prop, tier="quick", seed=0, jobs=16):
             item = dict(engine="kani", unit=k["harness"], obligation=fc["desc"], desc=fc["desc"],
                         location=f"{fc['file']}:{fc['line']} in {fc['fn']}", bounded=is_bounded)
             kf = _known_match(known, prop, "kani", k["harness"], fc["desc"])
+            if kf and not is_bounded:
+                known_obl += 1
             (known_hits if kf else violations).append(dict(item, known=kf))
 
     # ---------------- replay files for violations (files of earlier runs of this property are dropped:
@@ -258,7 +276,10 @@ def check_property(prop, tier="quick", seed=0, jobs=16):
         property_id=prop, tier=tier, seed=seed, level=level, wall_s=round(wall, 2),
         violations=len(violations),
         coverage=dict(
-            obligations=obligations, discharged=discharged,
+            # obligations that are the listed known findings (genuine, recorded defects) are not part of the proof claim:
+            # they are counted apart, and the claim is for the remaining obligations
+            obligations=obligations - known_obl, discharged=discharged,
+            obligations_failing_as_listed_known_findings=known_obl,
             checker_cmd=" ; ".join(dict.fromkeys(checker_cmds))[:4000] or "none",
             trusted_base=tb,
             by_backend=by_backend,
@@ -274,7 +295,7 @@ def check_property(prop, tier="quick", seed=0, jobs=16):
             explanation=meta.get("explanation", ""),
             repo=repo_head(),
             # generic fallback keys (measured): evaluations = obligations generated, distinct = discharged
-            evaluations=max(obligations + bounded_checks, 1), distinct_nontrivial=max(discharged + bounded_passed, 0),
+            evaluations=max(obligations - known_obl + bounded_checks, 1), distinct_nontrivial=max(discharged + bounded_passed, 0),
             bounded_checks=bounded_checks, bounded_checks_passed=bounded_passed,
             rule="one case = one proof obligation generated from today's source (a Verus function or a CBMC check, each at a distinct source location / contract clause); "
                  "non-trivial = discharged and not an expected-fail vacuity probe; checks of bounded stand-ins are counted here but never under obligations/discharged",
@@ -290,7 +311,7 @@ def check_property(prop, tier="quick", seed=0, jobs=16):
         for u in undecided:
             print("UNDECIDED:", u[:2000], file=sys.stderr)
         return 2
-    print(f"OK property={prop} tier={tier} obligations={obligations} discharged={discharged} wall={wall:.1f}s")
+    print(f"OK property={prop} tier={tier} obligations={obligations - known_obl} discharged={discharged} known_findings={known_obl} wall={wall:.1f}s")
     return 0
 
 
